@@ -209,7 +209,7 @@ func Run[V comparable](t *T[V], c Cell) Rec {
 	var rev = &reversed[V]{t}
 	switch c.Kind {
 	case "Association":
-		var k, v = t.Enc(c.N), t.Enc(c.N + 1)
+		var k, v = t.Enc(c.N), t.Enc((c.N+1)%5) // token 0 is the zero value of the type
 		rec.Module = try(func() map[string]any {
 			var a = mod.Association[V, V](args(k, v)...)
 			return map[string]any{"kind": "Association", "items": []any{t.Dec(a.GetKey()), t.Dec(a.GetValue())}}
